@@ -10,3 +10,65 @@ from pyvc.specs_support import uninterp
           note="list.index: first occurrence (-1 when absent; the builtin raises ValueError then)")
 def first_index(xs, x):
     return xs.index(x) if x in xs else -1
+
+
+from pyvc.specs_support import rec
+
+
+@rec('(list[bool]) -> int')
+def count_true(xs):
+    """Number of True entries (what ``sum(flag for ...)`` computes)."""
+    if len(xs) == 0:
+        return 0
+    return count_true(xs[:len(xs) - 1]) + (1 if xs[len(xs) - 1] else 0)
+
+
+@rec('(list[bool]) -> list[int]')
+def true_indices(xs):
+    """Indices of the True entries, in increasing order."""
+    if len(xs) == 0:
+        return []
+    return true_indices(xs[:len(xs) - 1]) + ([len(xs) - 1] if xs[len(xs) - 1] else [])
+
+
+import re as _re
+from pyvc.specs_support import native as _native
+from pyvc import smt as _smt
+
+
+def _regex_builder(kind):
+    def build(ts):
+        from pyvc import models
+        pat, flags, s = ts
+        if pat.lit is None or flags.lit is None:
+            from pyvc.vals import Undecided
+            raise Undecided('S.re_%s needs a literal pattern and literal flags' % kind)
+        name = models.regex_pred(kind, pat.lit[1], flags.lit[1])
+        return _smt.CTX.app(name, s)
+    return build
+
+
+@_native('(str, int, str) -> bool', _regex_builder('match'))
+def re_match(pattern, flags, s):
+    """re.match(pattern, s, flags) is not None (trusted: re)."""
+    return _re.match(pattern, s, flags) is not None
+
+
+@_native('(str, int, str) -> bool', _regex_builder('search'))
+def re_search(pattern, flags, s):
+    return _re.search(pattern, s, flags) is not None
+
+
+# -------------------------------------------------------------------- C10: force-disabled doctests
+_DISABLE = [r'>>>\s*#\s*DISABLE', r'>>>\s*#\s*UNSTABLE', r'>>>\s*#\s*FAILING', r'>>>\s*#\s*SCRIPT',
+            r'>>>\s*#\s*SLOW_DOCTEST']
+DISABLE_NATIVE = '|'.join(_DISABLE)
+DISABLE_PYTEST = '|'.join(_DISABLE + [r'>>>\s*#\s*pytest.skip'])
+
+
+def force_disabled(docsrc, pytest):
+    """A doctest is force-disabled iff its source STARTS with one of the documented comment markers
+    (case-insensitive); under pytest also the pytest.skip marker."""
+    if pytest:
+        return re_match(DISABLE_PYTEST, 2, docsrc)
+    return re_match(DISABLE_NATIVE, 2, docsrc)
